@@ -81,11 +81,22 @@ macro_rules! build {
         let mut iob = $handle.builder().with_max_mtu($l.max_mtu);
         if $ep == "c" && !$sc.rebinds.is_empty() {
             let rebinds = $sc.rebinds.clone();
+            let toggle = $sc.rebind_toggle;
             iob = iob.on_socket(move |socket| {
                 io::spawn(async move {
                     let mut addr = socket.local_addr().unwrap();
+                    let home = addr;
+                    let mut away = false;
                     for (t, ip) in rebinds {
                         io::time::delay(Duration::from_micros(t.saturating_sub(now_us()))).await;
+                        if toggle && away {
+                            away = false;
+                            addr = home;
+                            emit(json!({"ev": "rebind", "ep": "c", "addr": addr.to_string(), "ip": ip}));
+                            socket.rebind(addr);
+                            continue;
+                        }
+                        away = true;
                         addr.set_port(addr.port().wrapping_add(1).max(1024));
                         if ip {
                             if let std::net::IpAddr::V4(v4) = addr.ip() {
@@ -140,6 +151,10 @@ impl Hooks {
             let rw = crate::inject::rewriter(v.clone());
             if v.victim == "s" { h.server_tap.rx_rewrite = Some(rw); } else { h.client_tap.rx_rewrite = Some(rw); }
         }
+        if sc.dup_cid_frames && sc.violation.is_none() {
+            h.server_tap.rx_rewrite = Some(crate::inject::duplicator());
+            h.client_tap.rx_rewrite = Some(crate::inject::duplicator());
+        }
         h
     }
 }
@@ -147,6 +162,7 @@ impl Hooks {
 /// runs the scenario to completion and returns its events (first event: the scenario itself)
 pub fn run(sc: &Scenario, hooks: Hooks) -> Vec<Value> {
     let _ = take_events();
+    crate::common::CIDLEN.with(|c| c.set([0, 0]));
     // guarded hooks of the code under test (cfg aws_s2n_quic_verif) report through a thread-local line sink
     s2n_quic_core::verif::install(Box::new(|line: &str| {
         if let Ok(v) = serde_json::from_str::<Value>(line) {
